@@ -85,9 +85,17 @@ func newStack(t stackType, fifo bool, c ...int) *stack {
 	cfg.ord = fifo
 
 	if len(c) > 0 {
-		if c[0] > 0 {
+		if c[0] > 0 && c[0]+1 > 0 {
 			cfg.cap = c[0] + 1 // 1 for cfg slice offset
-			st = make(stack, 0, cfg.cap)
+
+			// preallocate, but never more than a
+			// sane amount: the capacity is enforced
+			// through cfg.cap, not the allocation.
+			prealloc := cfg.cap
+			if prealloc > 1024 {
+				prealloc = 1024
+			}
+			st = make(stack, 0, prealloc)
 		}
 	} else {
 		st = make(stack, 0)
